@@ -19,7 +19,7 @@ from __future__ import annotations
 
 import ast
 from dataclasses import dataclass, field
-from typing import Callable, Dict, List, Optional, Tuple
+from typing import Callable, Dict, List, Optional, Set, Tuple
 
 from .core import AnalysisError, FunctionInfo, Repo, unparse
 
@@ -394,6 +394,10 @@ def module_literal(mi, name: str) -> Optional[Term]:
             return ("mod", mi.imports[n.id])
         if isinstance(n, ast.Attribute) and isinstance(n.value, ast.Name) and n.value.id in mi.imports:
             return ("mod", f"{mi.imports[n.value.id]}.{n.attr}")
+        if isinstance(n, ast.Call) and not n.keywords and len(n.args) == 1 and isinstance(n.args[0], ast.Constant) \
+                and conv(n.func) == ("mod", "struct.Struct"):
+            # a precompiled record layout: an immutable value determined by its format string
+            return ("call", ("mod", "struct.Struct"), (("const", n.args[0].value),), ())
         if isinstance(n, ast.Dict) and all(k is not None for k in n.keys):
             # a module-level dispatch table {literal: imported function / literal}
             items = [(conv(k), conv(v)) for k, v in zip(n.keys, n.values)]
@@ -683,7 +687,7 @@ class Walker:
         entry: FunctionInfo,
         self_class: Optional[str] = None,
         inline: Callable[[FunctionInfo], bool] = None,
-        max_depth: int = 3,
+        max_depth: int = 5,
         subst: Dict[Term, Term] = None,
     ):
         self.subst = subst or {}
@@ -701,6 +705,7 @@ class Walker:
         self.loopstack: List[int] = []
         self.closures: Dict[int, FunctionInfo] = {}
         self.cont_stack: List[Tuple[int, list]] = []
+        self.exit_marks: Set[int] = set()
         self.fnstack: List[FunctionInfo] = []
         self.inlined: List[str] = []
         self.stmt: Optional[ast.AST] = None
@@ -745,7 +750,7 @@ class Walker:
 
     # -- staleness of copied reads ----------------------------------------------
     def invalidate(self, fields, env: Dict[str, Term] = None, elements_only: bool = False,
-                   cause: str = "store", owner: Optional[str] = None) -> None:
+                   cause: str = "store", owner: Optional[str] = None, keep=None) -> None:
         """A local that holds a copy of a read of field F stops being equal to a fresh read
         of F once F may have been written: wrap it as ('old', term, n).
         elements_only: the write went INTO the container held by F (element store, append, ...);
@@ -760,6 +765,8 @@ class Walker:
         for e in envs:
             for name, t in list(e.items()):
                 if t[0] == "old":
+                    continue
+                if keep is not None and keep(t):
                     continue
                 if elements_only and t[0] == "attr" and t[2] in fields and not reads_field(t[1], fields, owner):
                     continue
@@ -848,11 +855,65 @@ class Walker:
                 self.guards.append(res[1])
                 pushed += 1
             elif isinstance(res, tuple) and res[0] == "guards":
+                if len(res) > 2 and res[2]:
+                    # the other arm left the loop / function: these facts hold on every path that goes on iterating
+                    self.exit_marks.update(range(len(self.guards), len(self.guards) + len(res[1])))
                 self.guards.extend(res[1])
                 pushed += len(res[1])
         for _ in range(pushed):
             self.guards.pop()
+            self.exit_marks.discard(len(self.guards))
         return terminated
+
+    def _sum_loop(self, s: ast.Assign) -> Optional[List[ast.stmt]]:
+        """`x = sum((E for T in D if c), start)` is `acc = start; for T in D: if c: acc += E; x = acc`
+        (the built-in adds left to right, starting from `start`, default 0)."""
+        v = s.value
+        if not (isinstance(v, ast.Call) and isinstance(v.func, ast.Name) and v.func.id == "sum" and 1 <= len(v.args) <= 2
+                and isinstance(v.args[0], (ast.GeneratorExp, ast.ListComp))):
+            return None
+        start: ast.expr = ast.Constant(0)
+        if len(v.args) == 2:
+            if v.keywords:
+                return None
+            start = v.args[1]
+        elif v.keywords:
+            if len(v.keywords) != 1 or v.keywords[0].arg != "start":
+                return None
+            start = v.keywords[0].value
+        comp = v.args[0]
+        if any(g.is_async for g in comp.generators):
+            return None
+        self._cw_n = getattr(self, "_cw_n", 0) + 1
+        acc = f"$sum{self._cw_n}"
+        bound = set()
+        for g in comp.generators:
+            bound |= {n.id for n in ast.walk(g.target) if isinstance(n, ast.Name)}
+        suffix = f"$s{self._cw_n}"
+
+        class Ren(ast.NodeTransformer):
+            def visit_Name(self, n):
+                return ast.copy_location(ast.Name(id=n.id + suffix, ctx=n.ctx), n) if n.id in bound else n
+        import copy as _copy
+        comp = _copy.deepcopy(comp)
+        # the first iterable is evaluated in the enclosing scope
+        first_iter = comp.generators[0].iter
+        comp = Ren().visit(comp)
+        comp.generators[0].iter = first_iter
+        inner: ast.stmt = ast.AugAssign(target=ast.Name(id=acc, ctx=ast.Store()), op=ast.Add(), value=comp.elt)
+        for g in reversed(comp.generators):
+            for c in reversed(g.ifs):
+                inner = ast.If(test=c, body=[inner], orelse=[])
+            inner = ast.For(target=g.target, iter=g.iter, body=[inner], orelse=[])
+        out = [ast.Assign(targets=[ast.Name(id=acc, ctx=ast.Store())], value=start), inner,
+               ast.Assign(targets=[s.targets[0]], value=ast.Name(id=acc, ctx=ast.Load()))]
+        for st in out:
+            ast.copy_location(st, s)
+            for n in ast.walk(st):
+                if not hasattr(n, "lineno"):
+                    ast.copy_location(n, s)
+            ast.fix_missing_locations(st)
+        return out
 
     def statement(self, s: ast.stmt, env: Dict[str, Term]):
         if isinstance(s, ast.Expr):
@@ -874,6 +935,12 @@ class Walker:
                 return self.statement(inner, env)
             self.ev(s.value, env)
             return None
+        if isinstance(s, ast.Assign) and len(s.targets) == 1 and isinstance(s.targets[0], ast.Name):
+            loop = self._sum_loop(s)
+            if loop is not None:
+                for st in loop:
+                    self.statement(st, env)
+                return None
         if isinstance(s, ast.Assign) and len(s.targets) == 1 and isinstance(s.targets[0], ast.Name) \
                 and isinstance(s.value, ast.BinOp) and type(s.value.op) in OPS:
             # `x = x op e` (and `x = e op x` for + and *) is the local-variable form of `x op= e`
@@ -940,7 +1007,7 @@ class Walker:
             self.emit("continue", s)
             if self.cont_stack:
                 base, recs = self.cont_stack[-1]
-                recs.append((list(self.guards[base:]), dict(env)))
+                recs.append(([g for i, g in enumerate(self.guards[base:]) if base + i not in self.exit_marks], dict(env)))
             return True
         if isinstance(s, ast.Pass):
             return None
@@ -997,8 +1064,26 @@ class Walker:
                     pre.append(self.ev(e, env))
                 else:
                     pre.append(None)
+            stars = [i for i, e in enumerate(t.elts) if isinstance(e, ast.Starred)]
             for i, e in enumerate(t.elts):
                 items = self.list_items(val)
+                if len(stars) == 1:
+                    # a, b, *rest = seq : rest is list(seq[2:]) (and the names after it count from the end)
+                    k, after = stars[0], len(t.elts) - stars[0] - 1
+                    if i < k:
+                        v = ("idx", val, ("const", i))
+                    elif i > k:
+                        v = ("idx", val, ("const", i - len(t.elts)))
+                    else:
+                        self._site += 1
+                        sl = ("slice", ("const", k) if k else None, ("const", -after) if after else None, None)
+                        v = ("alloc", "builtin.list", (("idx", val, sl),), (), self._site)
+                        e = e.value
+                    if pre[i] is not None or not isinstance(e, ast.Name):
+                        self.emit("opaque", stmt, name="assign?")
+                        continue
+                    self.assign(e, v, env, stmt)
+                    continue
                 if val[0] in ("tuple", "list") and len(val[1]) == len(t.elts):
                     v = val[1][i]
                 elif items is not None and len(items) == len(t.elts):
@@ -1066,22 +1151,26 @@ class Walker:
         pos, neg = self.expand_guard(cond, True), self.expand_guard(cond, False)
         for g in pos + neg:
             self.guard_src.setdefault(g[0], (s.lineno, "if " + unparse(s.test), self.fnstack[-1]))
+        n_cont = lambda: len(self.cont_stack[-1][1]) if self.cont_stack else 0
+        c0 = n_cont()
         self.guards.extend(pos)
         ta = self.block(s.body, ea)
         del self.guards[len(self.guards) - len(pos):]
+        c1 = n_cont()
         self.guards.extend(neg)
         tb = self.block(s.orelse, eb)
         del self.guards[len(self.guards) - len(neg):]
+        c2 = n_cont()
         if ta and tb:
             return True
         if ta:
             env.clear()
             env.update(eb)
-            return ("guards", neg)
+            return ("guards", neg, c1 == c0)  # third: the arm ended in break / return / raise only
         if tb:
             env.clear()
             env.update(ea)
-            return ("guards", pos)
+            return ("guards", pos, c2 == c1)
         self.merge(cond, env, ea, eb)
         return None
 
@@ -1186,7 +1275,151 @@ class Walker:
             return None
         return ("call", ("builtin", "range"), (ps[0][1],), ()), [p[0] for p in ps], zipped
 
+    def _generator_loop(self, s: ast.For, env: Dict[str, Term]):
+        """`for T in gen(args): body` over a generator function of the same module is the generator's body with every
+        `yield E` replaced by `T = E; body` (generator locals renamed apart).  None when the shape is outside that."""
+        if not isinstance(s.iter, ast.Call) or s.orelse or any(isinstance(a, ast.Starred) for a in s.iter.args):
+            return None
+        f = s.iter.func
+        cur = self.fnstack[-1]
+        fi = None
+        if isinstance(f, ast.Name) and f.id not in env:
+            mi = self.repo.modules.get(cur.module)
+            fi = mi.functions.get(f.id) if mi else None
+        elif isinstance(f, ast.Attribute) and isinstance(f.value, ast.Name) and f.value.id == "self" and cur.cls:
+            fi = self.repo.method(cur.cls, f.attr)
+            if fi is not None and fi.module != cur.module:
+                fi = None
+        if fi is None or not self.inline(fi) or len(self.fnstack) > self.max_depth:
+            return None
+        g = fi.node
+        if not any(isinstance(n, (ast.Yield, ast.YieldFrom)) for n in ast.walk(g)):
+            return None
+        if g.args.vararg or g.args.kwarg or fi.decorators and any(
+                d.split("(")[0].split(".")[-1] != "staticmethod" for d in fi.decorators):
+            return None
+        for n in ast.walk(g):
+            if isinstance(n, (ast.YieldFrom, ast.Return, ast.Lambda, ast.Global, ast.Nonlocal)) or \
+                    (isinstance(n, (ast.FunctionDef, ast.ClassDef)) and n is not g):
+                return None
+            if isinstance(n, ast.Yield) and n.value is None:
+                return None
+        yields = [n for n in ast.walk(g) if isinstance(n, ast.Yield)]
+        stmts_y = [n for n in ast.walk(g) if isinstance(n, ast.Expr) and isinstance(n.value, ast.Yield)]
+        if len(yields) != len(stmts_y):
+            return None
+
+        # break / continue of the caller's loop would have to leave / resume the generator: not modelled
+        def own_jumps(body):
+            for st in body:
+                if isinstance(st, (ast.Break, ast.Continue)):
+                    return True
+                if isinstance(st, (ast.For, ast.While)):
+                    if own_jumps(st.orelse):
+                        return True
+                    continue
+                for fld in ("body", "orelse", "finalbody", "handlers"):
+                    sub = getattr(st, fld, None)
+                    if isinstance(sub, list) and sub and isinstance(sub[0], ast.AST) and own_jumps(
+                            [x for x in sub if isinstance(x, ast.stmt)] +
+                            [y for x in sub if isinstance(x, ast.ExceptHandler) for y in x.body]):
+                        return True
+            return False
+        if own_jumps(s.body):
+            return None
+        self._gen_n = getattr(self, "_gen_n", 0) + 1
+        suffix = f"$g{self._gen_n}"
+        params = [p for p in fi.params if p != "self"]
+        local = set(params) | set(assigned_names(g.body))
+
+        class Ren(ast.NodeTransformer):
+            def visit_Name(self, n):
+                if n.id in local:
+                    return ast.copy_location(ast.Name(id=n.id + suffix, ctx=n.ctx), n)
+                return n
+        import copy as _copy
+        body = [Ren().visit(_copy.deepcopy(st)) for st in g.body]
+        outer = self
+
+        class Yld(ast.NodeTransformer):
+            def generic_visit(self, node):
+                for fld in ("body", "orelse", "finalbody"):
+                    sub = getattr(node, fld, None)
+                    if isinstance(sub, list):
+                        out = []
+                        for st in sub:
+                            if isinstance(st, ast.Expr) and isinstance(st.value, ast.Yield):
+                                out.append(ast.copy_location(ast.Assign(targets=[s.target], value=st.value.value,
+                                                                        lineno=st.lineno), st))
+                                out.extend(s.body)
+                            else:
+                                out.append(self.generic_visit(st) if isinstance(st, ast.AST) else st)
+                        setattr(node, fld, out)
+                if isinstance(node, ast.Try):
+                    for h in node.handlers:
+                        self.generic_visit(h)
+                return node
+        holder = ast.Module(body=body, type_ignores=[])
+        Yld().generic_visit(holder)
+        # bind the arguments (evaluated once, at the call, in the caller's environment)
+        a = g.args
+        pos = [x.arg for x in a.posonlyargs + a.args if x.arg != "self"]
+        defaults = {}
+        for x, dflt in zip(reversed(a.posonlyargs + a.args), reversed(a.defaults)):
+            defaults[x.arg] = dflt
+        for x, dflt in zip(a.kwonlyargs, a.kw_defaults):
+            if dflt is not None:
+                defaults[x.arg] = dflt
+        bound = {}
+        for name, arg in zip(pos, s.iter.args):
+            bound[name] = self.ev(arg, env)
+        for kw in s.iter.keywords:
+            if kw.arg is None or kw.arg not in params:
+                return None
+            bound[kw.arg] = self.ev(kw.value, env)
+        for name in params:
+            if name not in bound:
+                if name not in defaults:
+                    return None
+                bound[name] = self.ev(defaults[name], {})
+        for name, v in bound.items():
+            env[name + suffix] = v
+        self.inlined.append(fi.fq)
+        return ("done", self.block(holder.body, env))
+
     def for_(self, s: ast.For, env: Dict[str, Term]):
+        gen = self._generator_loop(s, env)
+        if gen is not None:
+            return True if gen[1] is True else None
+        # `for k, v in src.items(): dst[k] = v` is `dst.update(src)`
+        if isinstance(s.target, ast.Tuple) and len(s.target.elts) == 2 and all(isinstance(x, ast.Name) for x in s.target.elts) \
+                and isinstance(s.iter, ast.Call) and isinstance(s.iter.func, ast.Attribute) and s.iter.func.attr == "items" \
+                and not s.iter.args and not s.iter.keywords and not s.orelse:
+            body = [x for x in s.body if not (isinstance(x, ast.Expr) and isinstance(x.value, ast.Constant))]
+            kn, vn = s.target.elts[0].id, s.target.elts[1].id
+            if len(body) == 1 and isinstance(body[0], ast.Assign) and len(body[0].targets) == 1:
+                tg, val = body[0].targets[0], body[0].value
+                if isinstance(tg, ast.Subscript) and isinstance(tg.slice, ast.Name) and tg.slice.id == kn \
+                        and isinstance(val, ast.Name) and val.id == vn \
+                        and not any(isinstance(n, ast.Name) and n.id in (kn, vn) for n in ast.walk(tg.value)):
+                    call = ast.Expr(value=ast.Call(func=ast.Attribute(value=tg.value, attr="update", ctx=ast.Load()),
+                                                   args=[s.iter.func.value], keywords=[]))
+                    ast.copy_location(call, s)
+                    ast.fix_missing_locations(call)
+                    for n in ast.walk(call):
+                        ast.copy_location(n, s)
+                    return self.statement(call, env)
+        # `for x in (xs if c else [])` is `if c: for x in xs`
+        if isinstance(s.iter, ast.IfExp) and not s.orelse:
+            empty = lambda n: isinstance(n, (ast.List, ast.Tuple)) and not n.elts
+            it = s.iter
+            if empty(it.orelse) or empty(it.body):
+                test = it.test if empty(it.orelse) else ast.copy_location(ast.UnaryOp(op=ast.Not(), operand=it.test), it.test)
+                loop = ast.copy_location(ast.For(target=s.target, iter=it.body if empty(it.orelse) else it.orelse,
+                                                 body=s.body, orelse=[], lineno=s.lineno), s)
+                cond = ast.copy_location(ast.If(test=test, body=[loop], orelse=[]), s)
+                ast.fix_missing_locations(cond)
+                return self.statement(cond, env)
         # `for u in (a, b): body` over a short literal is `u = a; body; u = b; body`
         if isinstance(s.iter, (ast.Tuple, ast.List)) and 1 <= len(s.iter.elts) <= 4 and isinstance(s.target, ast.Name) \
                 and not s.orelse and not any(isinstance(x, (ast.Break, ast.Continue, ast.Starred)) for x in ast.walk(s)):
@@ -1210,12 +1443,35 @@ class Walker:
             return None
         n_ev = len(self.events)
         dom = self.ev(s.iter, env)
+        if dom[0] == "sel" and not s.orelse:
+            # the same through a local: `xs = nodes if c else []; for x in xs`
+            empty = lambda t: t == ("tuple", ()) or self.list_items(t) == ()
+            if empty(dom[3]) != empty(dom[2]):
+                self._cw_n = getattr(self, "_cw_n", 0) + 1
+                tc, td = f"$c{self._cw_n}", f"$d{self._cw_n}"
+                env[tc] = dom[1]
+                env[td] = dom[2] if empty(dom[3]) else dom[3]
+                test = ast.Name(id=tc, ctx=ast.Load())
+                if empty(dom[2]):
+                    test = ast.UnaryOp(op=ast.Not(), operand=test)
+                loop = ast.copy_location(ast.For(target=s.target, iter=ast.Name(id=td, ctx=ast.Load()), body=s.body,
+                                                 orelse=[], lineno=s.lineno), s)
+                cond = ast.copy_location(ast.If(test=test, body=[loop], orelse=[]), s)
+                ast.fix_missing_locations(cond)
+                return self.statement(cond, env)
         sliced = self._slice_domain(dom)
         if sliced is not None:
             dom = sliced[0]
             if all(e.kind == "call" and (e.name or "").startswith("builtin.") for e in self.events[n_ev:]):
                 del self.events[n_ev:]
             self.emit("call", s.iter, target=("builtin", "range"), value=dom, name="builtin.range", args=dom[2], kwargs=())
+        # `for i in range(min(len(xs), len(ys)))` visits the positions of zip(xs, ys): i is that loop's position
+        zip_pos = None
+        if isinstance(s.target, ast.Name) and dom[0] == "call" and dom[1] == ("builtin", "range") and len(dom[2]) == 1 \
+                and not dom[3] and dom[2][0][0] == "min" and len(dom[2][0][1]) >= 2 \
+                and all(x[0] == "call" and x[1] == ("builtin", "len") and len(x[2]) == 1 and not x[3] for x in dom[2][0][1]):
+            dom = ("call", ("builtin", "zip"), tuple(x[2][0] for x in dom[2][0][1]), ())
+            zip_pos = True
         skip = self._all_but_one(dom) if isinstance(s.target, ast.Name) else None
         if skip is not None:
             dom = skip[0]
@@ -1246,6 +1502,8 @@ class Walker:
                         and not dom[3]:
                     # `for a, b in zip(xs, ys)`: a is xs[pos], b is ys[pos]
                     v = ("idx", dom[2][path[0]], ("iterproj", dom, li.lid, ("pos",)))
+                if zip_pos and not path:
+                    v = ("iterproj", dom, li.lid, ("pos",))
                 if sliced is not None:
                     arrays, zipped = sliced[1], sliced[2]
                     r = ("iter", dom, li.lid)
@@ -1256,8 +1514,16 @@ class Walker:
                 env[t.id] = v
                 li.targets[t.id] = v
             elif isinstance(t, (ast.Tuple, ast.List)):
+                stars = [i for i, e in enumerate(t.elts) if isinstance(e, ast.Starred)]
                 for i, e in enumerate(t.elts):
-                    bind(e, path + [i])
+                    if stars and not path and i == stars[0] == len(t.elts) - 1 and isinstance(e.value, ast.Name):
+                        self._site += 1
+                        v = ("alloc", "builtin.list", (("idx", ("iter", dom, li.lid),
+                             ("slice", ("const", i) if i else None, None, None)),), (), self._site)
+                        env[e.value.id] = v
+                        li.targets[e.value.id] = v
+                    else:
+                        bind(e, path + [i])
             else:
                 self.emit("store", s, target=self.ev(t, env), value=("iter", dom, li.lid))
 
@@ -1304,7 +1570,82 @@ class Walker:
                 if a != b:
                     env[n] = ("sel", cond, a, b)
 
+    def _counted_while(self, s: ast.While, env: Dict[str, Term]) -> Optional[ast.For]:
+        """`while i < N: body; i += 1` (N and i untouched by body, no `continue`, i dead after the loop) is
+        `for i in range(<i now>, N): body`."""
+        t = s.test
+        if not (isinstance(t, ast.Compare) and len(t.ops) == 1 and isinstance(t.ops[0], ast.Lt)
+                and isinstance(t.left, ast.Name) and len(s.body) >= 2):
+            return None
+        i = t.left.id
+        if "$" in i or i not in env:
+            return None
+        last = s.body[-1]
+        if not (isinstance(last, ast.AugAssign) and isinstance(last.op, ast.Add) and isinstance(last.target, ast.Name)
+                and last.target.id == i and isinstance(last.value, ast.Constant) and last.value.value == 1
+                and type(last.value.value) is int):
+            return None
+        body = s.body[:-1]
+        bound = t.comparators[0]
+
+        def simple(e):
+            if isinstance(e, ast.Constant):
+                return True
+            if isinstance(e, ast.Name):
+                return e.id != i
+            if isinstance(e, ast.Call) and isinstance(e.func, ast.Name) and e.func.id in ("len", "min", "max") \
+                    and not e.keywords:
+                return all(simple(a) for a in e.args)
+            if isinstance(e, ast.BinOp) and isinstance(e.op, (ast.Add, ast.Sub)):
+                return simple(e.left) and simple(e.right)
+            return False
+        if not simple(bound):
+            return None
+        free = {n.id for n in ast.walk(bound) if isinstance(n, ast.Name)} - {"len", "min", "max"}
+        written = set(assigned_names(body))
+        for n in ast.walk(ast.Module(body=body, type_ignores=[])):
+            if isinstance(n, (ast.Continue, ast.Global, ast.Nonlocal, ast.Lambda, ast.FunctionDef, ast.Delete)):
+                return None  # (a `continue` of a nested loop is refused too: cheap and sound)
+            if isinstance(n, ast.Call) and isinstance(n.func, ast.Attribute) and isinstance(n.func.value, ast.Name) \
+                    and n.func.value.id in free:
+                return None  # a method of something the bound measures (xs.append(...))
+            if isinstance(n, (ast.Subscript, ast.Attribute)) and isinstance(n.ctx, (ast.Store, ast.Del)):
+                base = n
+                while isinstance(base, (ast.Subscript, ast.Attribute)):
+                    base = base.value
+                if isinstance(base, ast.Name) and base.id in free:
+                    return None
+        if i in written or free & written:
+            return None
+        fn = self.fnstack[-1].node
+        end = getattr(s, "end_lineno", s.lineno)
+        for n in ast.walk(fn):
+            if isinstance(n, ast.Name) and n.id == i and isinstance(n.ctx, ast.Load) and n.lineno > end:
+                return None
+        # the loop may itself sit in a loop: a read of i at the top of the next outer iteration comes "after" too
+        for outer in ast.walk(fn):
+            if isinstance(outer, (ast.For, ast.While)) and outer is not s and any(x is s for x in ast.walk(outer)):
+                first_store = None
+                for n in ast.walk(outer):
+                    if isinstance(n, ast.Name) and n.id == i and n.lineno < s.lineno:
+                        if isinstance(n.ctx, ast.Load):
+                            if first_store is None or n.lineno <= first_store:
+                                return None
+                        elif first_store is None or n.lineno < first_store:
+                            first_store = n.lineno
+        self._cw_n = getattr(self, "_cw_n", 0) + 1
+        tmp = f"$w{self._cw_n}"
+        env[tmp] = env[i]
+        it = ast.Call(func=ast.Name(id="range", ctx=ast.Load()), args=[ast.Name(id=tmp, ctx=ast.Load()), bound], keywords=[])
+        loop = ast.For(target=ast.Name(id=i, ctx=ast.Store()), iter=it, body=body, orelse=s.orelse, lineno=s.lineno)
+        ast.copy_location(loop, s)
+        ast.fix_missing_locations(loop)
+        return loop
+
     def while_(self, s: ast.While, env: Dict[str, Term]):
+        counted = self._counted_while(s, env)
+        if counted is not None:
+            return self.for_(counted, env)
         li = self._enter_loop("while", s, env)
         names, init = self._loop_body(li, s.body, env, [])
         body = s.body
@@ -1508,8 +1849,15 @@ class Walker:
                             v = ("idx", it[2][path[0]], ("iterproj", it, lid, ("pos",)))
                         cenv[t.id] = v
                     elif isinstance(t, (ast.Tuple, ast.List)):
+                        stars = [i for i, x in enumerate(t.elts) if isinstance(x, ast.Starred)]
                         for i, x in enumerate(t.elts):
-                            bind(x, path + [i])
+                            if stars and not path and i == stars[0] == len(t.elts) - 1 and isinstance(x.value, ast.Name):
+                                # a, b, *rest: rest is list(element[2:])
+                                self._site += 1
+                                cenv[x.value.id] = ("alloc", "builtin.list", (("idx", ("iter", it, lid),
+                                                    ("slice", ("const", i) if i else None, None, None)),), (), self._site)
+                            else:
+                                bind(x, path + [i])
 
                 bind(g.target, [])
                 self.loopstack.append(lid)
@@ -1604,6 +1952,9 @@ class Walker:
                 and args[0][1] in ("numpy.zeros", "numpy.empty", "numpy.ones") and args[0][2] \
                 and args[0][2][0][0] not in ("tuple", "list"):
             return args[0][2][0]
+        # vars(x) is x.__dict__
+        if fn == ("builtin", "vars") and len(args) == 1 and not kwargs:
+            return ("attr", args[0], "__dict__")
         # tuple(xs) of a list whose contents this walk knows
         if fn == ("builtin", "tuple") and len(args) == 1 and not kwargs and self.list_items(args[0]) is not None:
             return ("tuple", self.list_items(args[0]))
@@ -1646,7 +1997,7 @@ class Walker:
                 return t
             if rcls:
                 fi = self.repo.method(rcls, meth)
-                if fi is not None and self.inline(fi) and len(self.fnstack) <= self.max_depth:
+                if fi is not None and self.inline(fi) and len(self.fnstack) <= self.max_depth and fi not in self.fnstack:
                     return self.inline_call(fi, recv, args, kwargs, e)
             t = ("call", fn, args, kwargs)
             self.emit("call", e, target=fn, value=t, name=meth, args=args, kwargs=kwargs)
@@ -1659,7 +2010,17 @@ class Walker:
                 else:
                     self.lists[recv[-1]] = None
             if rcls == "Heap" and meth in ("update", "insert"):
-                self.invalidate(HEAP_ARRAYS, env, cause="call:" + meth, owner="heap", elements_only=True)
+                keep = None
+                if args:
+                    # update(q, c) / insert(q) write cost[q] only: a copy of cost[x] taken under x != q stays exact
+                    q = args[0]
+
+                    def keep(t, q=q, recv=recv):
+                        if t[0] == "idx" and t[1] == ("attr", recv, "cost") and not reads_field(t[2], HEAP_ARRAYS, "heap"):
+                            x = t[2]
+                            return (mk_cmp("==", x, q), False) in self.guards or (mk_cmp("!=", x, q), True) in self.guards
+                        return False
+                self.invalidate(HEAP_ARRAYS, env, cause="call:" + meth, owner="heap", elements_only=True, keep=keep)
                 self.invalidate({"last"}, env, cause="call:" + meth, owner="heap")
             elif meth in CONTAINER_MUTATORS and recv[0] == "attr" and rcls is None:
                 self.invalidate({recv[2]}, env, elements_only=True, cause="call:" + meth)
@@ -1675,7 +2036,7 @@ class Walker:
             mi = self.repo.modules.get(mod)
             if mi and name in mi.functions:
                 fi = mi.functions[name]
-                if self.inline(fi) and len(self.fnstack) <= self.max_depth:
+                if self.inline(fi) and len(self.fnstack) <= self.max_depth and fi not in self.fnstack:
                     return self.inline_call(fi, None, args, kwargs, e)
         t = ("call", fn, args, kwargs)
         self.emit("call", e, target=fn, value=t, name=fname or show(fn), args=args, kwargs=kwargs)
@@ -1865,6 +2226,78 @@ def substitute_view(w, mapping: Dict[Term, Term]):
     for g, src in list(w.guard_src.items()):
         view.guard_src.setdefault(R(g), src)
     return view
+
+
+def settle_removed_costs(w) -> int:
+    """A copy of H.cost[p] (p = H.remove() of this iteration) that the walk marked stale because the queue is updated
+    later is still exact when every write to H.cost in that iteration goes to another element: all of them are
+    H.update(q, .) / H.insert(q) / H.cost[q] = . under the test q != p.  Such copies are replaced, in place, by the
+    fresh read they equal.  Returns the number of settled copies."""
+    import dataclasses
+    cands = set()
+
+    def scan(t):
+        for x in subterms(t):
+            if x[0] == "old" and x[1][0] == "idx" and x[1][1][0] == "attr" and x[1][1][2] == "cost" \
+                    and x[1][2][0] == "hremove" and x[1][2][1] == x[1][1][1]:
+                cands.add(x)
+    for e in w.events:
+        for t in (e.target, e.value) + tuple(e.args or ()) + tuple(g for g, _ in e.guards):
+            if t is not None:
+                scan(t)
+    for li in w.loops.values():
+        for a, b in li.carried.values():
+            scan(a)
+            scan(b)
+    mapping = {}
+    for O in cands:
+        H, x = O[1][1][1], O[1][2]
+        lid = x[2]
+        ok = True
+        for e in w.events:
+            if lid not in e.loops:
+                if e.kind == "store" and e.target == ("attr", H, "cost"):
+                    ok = False
+                continue
+            differs = lambda q: (mk_cmp("==", x, q), False) in e.guards or (mk_cmp("!=", x, q), True) in e.guards
+            if e.kind == "store":
+                if e.target == ("attr", H, "cost"):
+                    ok = False
+                elif e.target[0] == "idx" and e.target[1] in (("attr", H, "cost"), ("old", ("attr", H, "cost"))) \
+                        and not differs(e.target[2]):
+                    ok = False
+            elif e.kind == "call" and e.target is not None and e.target[0] == "attr" and e.target[1] == H:
+                if e.name in ("update", "insert"):
+                    if not e.args or not differs(e.args[0]):
+                        ok = False
+                elif e.name not in ("remove", "is_empty", "is_full"):
+                    ok = False
+            elif e.kind == "call" and e.name != "<inline>" and any(a == H for a in (e.args or ())):
+                ok = False
+            if not ok:
+                break
+        if ok:
+            mapping[O] = O[1]
+    if not mapping:
+        return 0
+
+    def R(t):
+        if t is None or not isinstance(t, tuple):
+            return t
+        if t in mapping:
+            return mapping[t]
+        return tuple(R(x) if isinstance(x, tuple) else x for x in t)
+    w.events = [dataclasses.replace(e, target=R(e.target), value=R(e.value), args=tuple(R(a) for a in (e.args or ())),
+                                    kwargs=tuple((k, R(v)) for k, v in (e.kwargs or ())),
+                                    guards=tuple((R(g), pol) for g, pol in e.guards)) for e in w.events]
+    for lid, li in list(w.loops.items()):
+        li.cond = R(li.cond)
+        li.domain = R(li.domain)
+        li.guards = tuple((R(g), pol) for g, pol in li.guards)
+        li.carried = {n: (R(a), R(b)) for n, (a, b) in li.carried.items()}
+    for g, src in list(w.guard_src.items()):
+        w.guard_src.setdefault(R(g), src)
+    return len(mapping)
 
 
 def is_log_call(ev) -> bool:
